@@ -33,6 +33,8 @@ static Json::Value genC06(Rng& rng) {
   plan["interval"] = rng.pick({1, 2, 5});
   int ticks = (int)rng.range(5, 16);
   plan["ticks"] = ticks;
+  if (rng.chance(0.4))
+    addTickDelays(rng, plan, ticks);
   plan["clock_off"] = (Json::Int64)rng.range(0, 999999999);
   return plan;
 }
